@@ -79,7 +79,7 @@ func genC12(r *simrt.Rand, tier string) json.RawMessage {
 		if (h.Rpc == "BatchInsert" || h.Rpc == "PartitionBatchInsert") && r.Bool(0.5) {
 			// an otherwise valid batch into the healthy dataset whose only oddity is the
 			// level field (it reaches the apply loop if nothing overrides or checks it)
-			h.Level = []int32{-2, math.MinInt32, -7, 1 << 28}[r.Intn(4)]
+			h.Level = []int32{-2, math.MinInt32, -7, -1}[r.Intn(4)] // (huge positive values only exhaust memory: not generated)
 			h.Items, h.BadIds, h.Vec, h.DsId, h.Part, h.Dup, h.Meta = []int{1, 3}[r.Intn(2)], 0, "good", "good", "good", false, "none"
 		}
 		c.Reqs = append(c.Reqs, h)
